@@ -217,7 +217,7 @@ Proof.
     + split; [reflexivity|]. now apply valid_fmod_51.
     + split; [|now apply valid_fmod_luau].
       apply to_bits_inj; auto using valid_fmod_51, valid_fmod_luau.
-  - intros E. rewrite E. split; [reflexivity|]. eapply valid_fpow; eauto.
+  - intros E. rewrite E. split; [reflexivity|]. exact (valid_fpow _ _ _ Hx Hy E).
 Qed.
 
 Lemma eq_ok s0 s1 s2 la lb a b :
@@ -230,13 +230,50 @@ Proof.
   repeat match goal with
          | H : match ?c with true => _ | false => _ end |- _ => destruct c; try contradiction
          end; cbn; try reflexivity.
-  - destruct Ha as [-> _], Hb as [-> _]. reflexivity.
-  - subst. reflexivity.
   - (* closures *) assert (a <> a0) by (intros ->; lia).
     apply N.eqb_neq in H. rewrite H. reflexivity.
+  - destruct Ha as [-> _], Hb as [-> _]. reflexivity.
+  - subst. reflexivity.
   - (* tables *) destruct Ha as [_ (t & Ht & _)]. apply nth_N_lt in Ht. destruct Hb as [Hb _].
     assert (a <> a0) by (intros ->; lia).
     apply N.eqb_neq in H. rewrite H. reflexivity.
+Qed.
+
+Lemma arith_ok n op la lb a b s0 s2 r s3 :
+  lv_ok s0 s2 la a -> lv_ok s0 s2 lb b -> plain s2 a -> plain s2 b -> strmeta_plain s2 ->
+  (op = BMod -> d = Luau -> forall x y, number_coercion la = LNumber x -> number_coercion lb = LNumber y ->
+                                        same_f64 (fmod_51 x y) (fmod_luau x y) = true) ->
+  arith d n op a b s2 = Ok r s3 ->
+  s3 = s2 /\
+  lv_ok s0 s2 (match number_coercion la with
+               | LNumber x =>
+                 match number_coercion lb with
+                 | LNumber y => match math_op op x y with Some z => LNumber z | None => LUnknown end
+                 | _ => LUnknown
+                 end
+               | _ => LUnknown
+               end) r.
+Proof.
+  intros Ha Hb Pa Pb Hs Hm H.
+  apply arith_plain in H as [-> (x & y & z & Tx & Ty & Ez & ->)]; auto. split; [reflexivity|].
+  destruct (number_coercion la) as [| | |x'| | | |] eqn:Ea; try exact I.
+  destruct (number_coercion lb) as [| | |y'| | | |] eqn:Eb; try exact I.
+  destruct (num_coerce_ok _ _ _ _ _ _ Ha Ea Tx) as [-> Vx].
+  destruct (num_coerce_ok _ _ _ _ _ _ Hb Eb Ty) as [-> Vy].
+  assert (op = BMod -> d = Luau -> same_f64 (fmod_51 x y) (fmod_luau x y) = true) as Hm'.
+  { intros E1 E2. apply Hm; auto. }
+  pose proof (math_arith op x y z Vx Vy Hm' Ez) as M.
+  destruct (math_op op x y) as [z'|]; [|exact I]. destruct M as [-> Vz]. cbn. auto.
+Qed.
+
+Lemma str_coerce_ok s0 s la a x :
+  lv_ok s0 s la a -> cstr d a = Some x -> concat_operand_safe d la = true ->
+  match string_coercion la with LString x' => x' = x | _ => True end.
+Proof.
+  intros H C S. destruct la; cbn [string_coercion]; try exact I.
+  - destruct a; try contradiction. cbn in H. destruct H as [-> _]. cbn in C. injection C as <-.
+    destruct (plain_decimal_range _); [|exact I]. cbn in S. now apply bytes_eqb_eq in S.
+  - destruct a; try contradiction. cbn in H. subst. cbn in C. now injection C.
 Qed.
 
 Lemma binop_ok n op la lb a b s0 s1 s2 vs s3 :
@@ -277,14 +314,403 @@ Proof.
       destruct la; cbn in Ha2; try contradiction; destruct lb; cbn in Hb2; try contradiction.
     + destruct Ha2 as [-> _], Hb2 as [-> _]. apply Hbool.
     + subst. apply Hbool.
-  - admit.
-  - admit.
-  - admit.
-  - admit.
-  - admit.
-  - admit.
-  - admit.
-  - admit.
-Admitted.
+  - (* + *) inv_ok H. subst. eapply arith_ok in H0 as [-> H0]; eauto.
+  - inv_ok H. subst. eapply arith_ok in H0 as [-> H0]; eauto.
+  - inv_ok H. subst. eapply arith_ok in H0 as [-> H0]; eauto.
+  - inv_ok H. subst. eapply arith_ok in H0 as [-> H0]; eauto.
+  - inv_ok H. subst. eapply arith_ok in H0 as [-> H0]; eauto.
+  - (* % *) inv_ok H. subst. eapply arith_ok in H0 as [-> H0]; eauto.
+  - inv_ok H. subst. eapply arith_ok in H0 as [-> H0]; eauto.
+  - (* .. *) inv_ok H. subst. apply concat_plain in H0 as [-> (x & y & Cx & Cy & ->)]; auto.
+    split; [reflexivity|]. destruct (Hcat eq_refl) as [Sa Sb].
+    pose proof (str_coerce_ok _ _ _ _ _ Ha2 Cx Sa) as Xa. pose proof (str_coerce_ok _ _ _ _ _ Hb2 Cy Sb) as Xb.
+    destruct (string_coercion la); try exact I. destruct (string_coercion lb); try exact I.
+    subst. reflexivity.
+Qed.
+
+
+(** unary operators *)
+Definition lv_unop (op : unop) (a : lv) : lv :=
+  match op with
+  | UNot => match is_truthy a with Some b => lv_of_bool (negb b) | None => LUnknown end
+  | UMinus => match number_coercion a with LNumber x => LNumber (fneg x) | _ => LUnknown end
+  | ULen => lv_length a
+  end.
+
+Lemma evaluate_unop op e : evaluate (EUnary op e) = lv_unop op (evaluate e).
+Proof. destruct op; reflexivity. Qed.
+
+Definition unop_sem (n : nat) (op : unop) (v : value) : M (list value) :=
+  match op with
+  | UNot => ret [VBool (negb (truthy v))]
+  | UMinus =>
+    match tonum v with
+    | Some x => ret [VNum (fneg x)]
+    | None =>
+      h <- metamethod v "__unm" ;;
+      match h with
+      | VNil => fail 18
+      | _ => vs <- call d n h [v; v] ;; ret [first vs]
+      end
+    end
+  | ULen => r <- length d n v ;; ret [r]
+  end.
+
+Lemma eval_S_unary' n rho va op e :
+  eval d (S n) rho va (EUnary op e) = (v <- eval1 d n rho va e ;; unop_sem n op v).
+Proof. reflexivity. Qed.
+
+Lemma unop_ok n op la a s0 s vs s' :
+  lv_ok s0 s la a -> (op <> UNot -> la <> LUnknown) -> strmeta_plain s ->
+  unop_sem n op a s = Ok vs s' ->
+  s' = s /\ lv_ok s0 s (lv_unop op la) (first vs).
+Proof.
+  intros Ha Ka Hs H. destruct op; cbn [unop_sem lv_unop] in *.
+  - inv_ok H. subst. split; [reflexivity|]. cbn [first].
+    destruct (is_truthy la) as [b|] eqn:E; [|exact I].
+    rewrite (lv_ok_truthy _ _ _ _ _ Ha E). apply lv_ok_bool.
+  - assert (la <> LUnknown) as K by (apply Ka; discriminate).
+    pose proof (lv_ok_plain _ _ _ _ Ha K) as Pa.
+    destruct (tonum a) as [x|] eqn:T.
+    + inv_ok H. subst. split; [reflexivity|]. cbn [first].
+      destruct (number_coercion la) as [| | |x'| | | |] eqn:E; try exact I.
+      destruct (num_coerce_ok _ _ _ _ _ _ Ha E T) as [-> V]. cbn. split; [reflexivity|]. now apply valid_fneg.
+    + exfalso. unfold bind in H. rewrite metamethod_plain in H by (assumption || reflexivity). discriminate.
+  - assert (la <> LUnknown) as K by (apply Ka; discriminate).
+    pose proof (lv_ok_plain _ _ _ _ Ha K) as Pa.
+    inv_ok H. subst. apply length_plain in H0 as [-> [(x & -> & ->)|(t & ->)]]; auto; (split; [reflexivity|]); cbn [first].
+    + destruct la; cbn in Ha; try contradiction. subst. cbn. split; [reflexivity|]. apply valid_of_Z.
+    + destruct la; cbn in Ha; try contradiction; exact I.
+Qed.
+
+(** * Hypotheses of the two theorems, and how they decompose along evaluation *)
+
+Definition HypP (e : expr) : Prop :=
+  dialect_safe d e = true /\ tables_safe d e = true /\ has_side_effects false e = false.
+Definition HypK (e : expr) : Prop :=
+  dialect_safe d e = true /\ ctor_pure d e = true /\ evaluate e <> LUnknown.
+Definition Hyp (m : bool) (e : expr) : Prop := if m then HypK e else HypP e.
+
+Lemma evaluate_and l r :
+  evaluate (EBinary BAnd l r) =
+  match is_truthy (evaluate l) with Some true => evaluate r | Some false => evaluate l | None => LUnknown end.
+Proof. reflexivity. Qed.
+Lemma evaluate_or l r :
+  evaluate (EBinary BOr l r) =
+  match is_truthy (evaluate l) with Some true => evaluate l | Some false => evaluate r | None => LUnknown end.
+Proof. reflexivity. Qed.
+
+Lemma is_truthy_unknown v : is_truthy v = None <-> v = LUnknown.
+Proof. destruct v; cbn; split; congruence. Qed.
+
+Lemma D_and m l r : Hyp m (EBinary BAnd l r) ->
+  Hyp m l /\ (is_truthy (evaluate l) <> Some false -> Hyp m r).
+Proof.
+  destruct m; cbn [Hyp].
+  - intros (Hd & Hc & He). apply ds_binary in Hd as (Dl & Dr & _).
+    cbn [ctor_pure] in Hc. apply andb_true_iff in Hc as [Cl Cr].
+    rewrite evaluate_and in He.
+    split.
+    + split; [exact Dl|split; [exact Cl|]]. intros E. rewrite E in He. now apply He.
+    + intros Hf. split; [exact Dr|split; [exact Cr|]].
+      destruct (is_truthy (evaluate l)) as [[|]|]; congruence.
+  - intros (Hd & Ht & Hs). apply ds_binary in Hd as (Dl & Dr & _).
+    cbn [tables_safe] in Ht. apply andb_true_iff in Ht as [Tl Tr].
+    cbn [has_side_effects] in Hs.
+    split.
+    + split; [exact Dl|split; [exact Tl|]].
+      destruct (match is_truthy (evaluate l) with Some b => b | None => true end); [|exact Hs].
+      now apply orb_false_iff in Hs.
+    + intros Hf. split; [exact Dr|split; [exact Tr|]].
+      destruct (is_truthy (evaluate l)) as [[|]|]; try congruence; now apply orb_false_iff in Hs.
+Qed.
+
+Lemma D_or m l r : Hyp m (EBinary BOr l r) ->
+  Hyp m l /\ (is_truthy (evaluate l) <> Some true -> Hyp m r).
+Proof.
+  destruct m; cbn [Hyp].
+  - intros (Hd & Hc & He). apply ds_binary in Hd as (Dl & Dr & _).
+    cbn [ctor_pure] in Hc. apply andb_true_iff in Hc as [Cl Cr].
+    rewrite evaluate_or in He.
+    split.
+    + split; [exact Dl|split; [exact Cl|]]. intros E. rewrite E in He. now apply He.
+    + intros Hf. split; [exact Dr|split; [exact Cr|]].
+      destruct (is_truthy (evaluate l)) as [[|]|]; congruence.
+  - intros (Hd & Ht & Hs). apply ds_binary in Hd as (Dl & Dr & _).
+    cbn [tables_safe] in Ht. apply andb_true_iff in Ht as [Tl Tr].
+    cbn [has_side_effects] in Hs.
+    split.
+    + split; [exact Dl|split; [exact Tl|]].
+      destruct (match is_truthy (evaluate l) with Some b => b | None => false end); [exact Hs|].
+      now apply orb_false_iff in Hs.
+    + intros Hf. split; [exact Dr|split; [exact Tr|]].
+      destruct (is_truthy (evaluate l)) as [[|]|]; try congruence; now apply orb_false_iff in Hs.
+Qed.
+
+Lemma maybe_metatable_false v : maybe_metatable v = false -> v <> LUnknown.
+Proof. destruct v; cbn; congruence. Qed.
+
+Lemma D_binop m op l r : is_andor op = false -> Hyp m (EBinary op l r) ->
+  Hyp m l /\ Hyp m r /\ evaluate l <> LUnknown /\ evaluate r <> LUnknown /\
+  op_safe d op (evaluate l) (evaluate r).
+Proof.
+  intros Hop. destruct m; cbn [Hyp].
+  - intros (Hd & Hc & He). apply ds_binary in Hd as (Dl & Dr & Ho).
+    cbn [ctor_pure] in Hc. apply andb_true_iff in Hc as [Cl Cr].
+    rewrite (evaluate_binop _ _ _ Hop) in He. apply lv_binop_known in He as [Kl Kr].
+    unfold HypK. tauto.
+  - intros (Hd & Ht & Hs). apply ds_binary in Hd as (Dl & Dr & Ho).
+    cbn [tables_safe] in Ht. apply andb_true_iff in Ht as [Tl Tr].
+    assert (maybe_metatable (evaluate l) || maybe_metatable (evaluate r)
+            || has_side_effects false l || has_side_effects false r = false) as Hs'.
+    { destruct op; try discriminate Hop; exact Hs. }
+    apply orb_false_iff in Hs' as [Hs' S4]. apply orb_false_iff in Hs' as [Hs' S3].
+    apply orb_false_iff in Hs' as [S1 S2].
+    apply maybe_metatable_false in S1, S2. unfold HypP. tauto.
+Qed.
+
+Lemma D_unop m op e : Hyp m (EUnary op e) ->
+  Hyp m e /\ (op <> UNot -> evaluate e <> LUnknown).
+Proof.
+  destruct m; cbn [Hyp].
+  - intros (Hd & Hc & He). apply ds_unary in Hd. cbn [ctor_pure] in Hc.
+    rewrite evaluate_unop in He.
+    assert (evaluate e <> LUnknown) as K.
+    { intros E. rewrite E in He. destruct op; now apply He. }
+    unfold HypK. tauto.
+  - intros (Hd & Ht & Hs). apply ds_unary in Hd. cbn [tables_safe] in Ht.
+    cbn [has_side_effects] in Hs. destruct op; cbn in Hs.
+    + unfold HypP. split; [tauto|]. congruence.
+    + apply orb_false_iff in Hs as [S1 S2]. apply maybe_metatable_false in S1. unfold HypP. tauto.
+    + apply orb_false_iff in Hs as [S1 S2]. apply maybe_metatable_false in S1. unfold HypP. tauto.
+Qed.
+
+Lemma D_paren m e : Hyp m (EParen e) -> Hyp m e.
+Proof.
+  destruct m; cbn [Hyp]; intros (Hd & Hc & He); apply ds_paren in Hd; split; auto.
+Qed.
+Lemma D_typecast m e t : Hyp m (ETypeCast e t) -> Hyp m e.
+Proof.
+  destruct m; cbn [Hyp]; intros (Hd & Hc & He); apply ds_typecast in Hd; split; auto.
+Qed.
+
+Lemma typeinst_lv p t : evaluate (ETypeInst p t) = evaluate p \/ evaluate (ETypeInst p t) = LUnknown.
+Proof. destruct p; auto. Qed.
+
+Lemma D_typeinst m p t : Hyp m (ETypeInst p t) -> Hyp m p.
+Proof.
+  destruct m; cbn [Hyp]; intros (Hd & Hc & He); apply ds_typeinst in Hd; split; auto.
+  split; [exact Hc|]. destruct (typeinst_lv p t) as [E|E]; congruence.
+Qed.
+
+Lemma D_bad_field m p f : Hyp m (EField p f) -> False.
+Proof. destruct m; cbn [Hyp]; intros (_ & _ & H); [now apply H|discriminate H]. Qed.
+Lemma D_bad_index m p k : Hyp m (EIndex p k) -> False.
+Proof. destruct m; cbn [Hyp]; intros (_ & _ & H); [now apply H|discriminate H]. Qed.
+Lemma D_bad_call m p mm a : Hyp m (ECall p mm a) -> False.
+Proof. destruct m; cbn [Hyp]; intros (_ & _ & H); [now apply H|discriminate H]. Qed.
+
+
+(** if-expressions *)
+Lemma evaluate_if_nil els : evaluate (EIf [] els) = evaluate els.
+Proof. reflexivity. Qed.
+Lemma evaluate_if_cons c r rest els :
+  evaluate (EIf (EBranch c r :: rest) els) =
+  match is_truthy (evaluate c) with
+  | Some true => evaluate r
+  | Some false => evaluate (EIf rest els)
+  | None => LUnknown
+  end.
+Proof. reflexivity. Qed.
+
+Fixpoint if_hyp (m : bool) (bs : list ebranch) (els : expr) : Prop :=
+  match bs with
+  | [] => Hyp m els
+  | EBranch c r :: rest =>
+    Hyp m c /\
+    match is_truthy (evaluate c) with
+    | Some true => Hyp m r
+    | Some false => if_hyp m rest els
+    | None => Hyp m r /\ if_hyp m rest els
+    end
+  end.
+
+Definition hse_go1 (els : expr) :=
+  fix go (bs : list ebranch) : bool :=
+    match bs with
+    | [] => has_side_effects false els
+    | EBranch c' r' :: rest' =>
+      if has_side_effects false c' then true
+      else match is_truthy (evaluate c') with
+           | Some true => has_side_effects false r'
+           | Some false => go rest'
+           | None => if has_side_effects false r' then true else go rest'
+           end
+    end.
+Definition hse_go2 (els : expr) :=
+  fix go (bs : list ebranch) : bool :=
+    match bs with
+    | [] => has_side_effects false els
+    | EBranch c' r' :: rest' =>
+      if has_side_effects false c' || has_side_effects false r' then true else go rest'
+    end.
+
+Lemma hse_if_nil els : has_side_effects false (EIf [] els) = has_side_effects false els.
+Proof. reflexivity. Qed.
+Lemma hse_if_cons c r rest els :
+  has_side_effects false (EIf (EBranch c r :: rest) els) =
+  if has_side_effects false c then true
+  else match is_truthy (evaluate c) with
+       | Some true => has_side_effects false r
+       | Some false => hse_go1 els rest
+       | None => if has_side_effects false r then true else hse_go2 els rest
+       end.
+Proof. reflexivity. Qed.
+
+Lemma ts_if_cons c r bs els : tables_safe d (EIf (EBranch c r :: bs) els) = true ->
+  tables_safe d c = true /\ tables_safe d r = true /\ tables_safe d (EIf bs els) = true.
+Proof. cbn [tables_safe forallb]. rewrite !andb_true_iff. tauto. Qed.
+Lemma cp_if_cons c r bs els : ctor_pure d (EIf (EBranch c r :: bs) els) = true ->
+  ctor_pure d c = true /\ ctor_pure d r = true /\ ctor_pure d (EIf bs els) = true.
+Proof. cbn [ctor_pure forallb]. rewrite !andb_true_iff. tauto. Qed.
+
+Lemma go1_hyp els : forall bs,
+  dialect_safe d (EIf bs els) = true -> tables_safe d (EIf bs els) = true ->
+  hse_go1 els bs = false -> if_hyp false bs els.
+Proof.
+  induction bs as [|[c r] bs IH]; intros Hd Ht Hs.
+  - cbn [if_hyp Hyp]. apply ds_if_nil in Hd. cbn in Ht. cbn in Hs. unfold HypP. auto.
+  - apply ds_if_cons in Hd as (Dc & Dr & Db). apply ts_if_cons in Ht as (Tc & Tr & Tb).
+    cbn [hse_go1] in Hs. fold (hse_go1 els) in Hs.
+    destruct (has_side_effects false c) eqn:Sc; [discriminate|].
+    cbn [if_hyp Hyp]. split; [unfold HypP; auto|].
+    destruct (is_truthy (evaluate c)) as [[|]|].
+    + unfold HypP; auto.
+    + auto.
+    + destruct (has_side_effects false r) eqn:Sr; [discriminate|]. split; [unfold HypP; auto|auto].
+Qed.
+
+Lemma go2_hyp els : forall bs,
+  dialect_safe d (EIf bs els) = true -> tables_safe d (EIf bs els) = true ->
+  hse_go2 els bs = false -> if_hyp false bs els.
+Proof.
+  induction bs as [|[c r] bs IH]; intros Hd Ht Hs.
+  - cbn [if_hyp Hyp]. apply ds_if_nil in Hd. cbn in Ht. cbn in Hs. unfold HypP. auto.
+  - apply ds_if_cons in Hd as (Dc & Dr & Db). apply ts_if_cons in Ht as (Tc & Tr & Tb).
+    cbn [hse_go2] in Hs. fold (hse_go2 els) in Hs.
+    destruct (has_side_effects false c) eqn:Sc; [discriminate|].
+    destruct (has_side_effects false r) eqn:Sr; [discriminate|]. cbn [orb] in Hs.
+    cbn [if_hyp Hyp]. split; [unfold HypP; auto|].
+    destruct (is_truthy (evaluate c)) as [[|]|].
+    + unfold HypP; auto.
+    + auto.
+    + split; [unfold HypP; auto|auto].
+Qed.
+
+Lemma D_if m : forall bs els, Hyp m (EIf bs els) -> if_hyp m bs els.
+Proof.
+  destruct m; cbn [Hyp].
+  - induction bs as [|[c r] bs IH]; intros els (Hd & Hc & He).
+    + cbn [if_hyp Hyp]. apply ds_if_nil in Hd. cbn in Hc. rewrite evaluate_if_nil in He. unfold HypK. auto.
+    + apply ds_if_cons in Hd as (Dc & Dr & Db). apply cp_if_cons in Hc as (Cc & Cr & Cb).
+      rewrite evaluate_if_cons in He. cbn [if_hyp Hyp].
+      assert (evaluate c <> LUnknown) as Kc.
+      { intros E. rewrite E in He. now apply He. }
+      split; [unfold HypK; auto|].
+      destruct (is_truthy (evaluate c)) as [[|]|].
+      * unfold HypK; auto.
+      * apply IH. unfold HypK; auto.
+      * exfalso. now apply He.
+  - intros [|[c r] bs] els (Hd & Ht & Hs).
+    + cbn [if_hyp Hyp]. apply ds_if_nil in Hd. cbn in Ht. rewrite hse_if_nil in Hs. unfold HypP. auto.
+    + rewrite hse_if_cons in Hs.
+      pose proof Hd as Hd'. pose proof Ht as Ht'.
+      apply ds_if_cons in Hd' as (Dc & Dr & Db). apply ts_if_cons in Ht' as (Tc & Tr & Tb).
+      destruct (has_side_effects false c) eqn:Sc; [discriminate|].
+      cbn [if_hyp Hyp]. split; [unfold HypP; auto|].
+      destruct (is_truthy (evaluate c)) as [[|]|].
+      * unfold HypP; auto.
+      * apply go1_hyp; auto.
+      * destruct (has_side_effects false r) eqn:Sr; [discriminate|]. split; [unfold HypP; auto|].
+        apply go2_hyp; auto.
+Qed.
+
+(** interpolated strings *)
+Definition lv_interp_go :=
+  fix go (ss : list iseg) (acc : bytes) : lv :=
+    match ss with
+    | [] => LString acc
+    | ISStr s :: rest => go rest (acc ++ s)
+    | ISExpr e' :: rest =>
+      match evaluate e' with
+      | LFalse => go rest (acc ++ of_string "false")
+      | LTrue => go rest (acc ++ of_string "true")
+      | LNil => go rest (acc ++ of_string "nil")
+      | LString s => go rest (acc ++ s)
+      | _ => LUnknown
+      end
+    end.
+
+Lemma evaluate_interp segs : evaluate (EInterp segs) = lv_interp_go segs [].
+Proof. reflexivity. Qed.
+
+Definition seg_hyp (m : bool) (sg : iseg) : Prop :=
+  match sg with
+  | ISExpr e' => Hyp m e' /\ evaluate e' <> LUnknown
+  | ISStr _ => True
+  end.
+
+Lemma D_interp m segs : Hyp m (EInterp segs) -> Forall (seg_hyp m) segs.
+Proof.
+  destruct m; cbn [Hyp].
+  - intros (Hd & Hc & He). rewrite evaluate_interp in He. revert Hd Hc He. generalize (@nil N).
+    induction segs as [|[x|e] segs IH]; intros acc Hd Hc He.
+    + constructor.
+    + constructor; [exact I|]. apply ds_interp_str in Hd. cbn [ctor_pure forallb] in Hc.
+      cbn [lv_interp_go] in He. eapply IH; eauto.
+    + apply ds_interp_expr in Hd as [De Ds]. cbn [ctor_pure forallb] in Hc.
+      apply andb_true_iff in Hc as [Ce Cs]. cbn [lv_interp_go] in He. fold lv_interp_go in He.
+      assert (evaluate e <> LUnknown) as K.
+      { intros E. rewrite E in He. now apply He. }
+      constructor; [cbn; unfold HypK; auto|].
+      destruct (evaluate e); try (exfalso; now apply He); eapply IH; eauto.
+  - intros (Hd & Ht & Hs). revert Hd Ht Hs.
+    induction segs as [|[x|e] segs IH]; intros Hd Ht Hs.
+    + constructor.
+    + constructor; [exact I|]. apply ds_interp_str in Hd. cbn [tables_safe forallb] in Ht.
+      cbn [has_side_effects existsb orb] in Hs. apply IH; auto.
+    + apply ds_interp_expr in Hd as [De Ds]. cbn [tables_safe forallb] in Ht.
+      apply andb_true_iff in Ht as [Te Ts]. cbn [has_side_effects existsb] in Hs.
+      apply orb_false_iff in Hs as [S1 S2]. apply orb_false_iff in S1 as [S1 S3]. cbn in S3.
+      apply maybe_metatable_false in S3.
+      constructor; [cbn; unfold HypP; auto|]. apply IH; auto.
+Qed.
+
+(** table constructors *)
+Definition entry_hyp (en : tentry) : Prop :=
+  match en with
+  | TField _ v => HypP v
+  | TIndex k v => HypP k /\ HypP v
+  | TValue v => HypP v
+  end.
+
+Lemma D_table_K es : HypK (ETable es) -> HypP (ETable es).
+Proof.
+  intros (Hd & Hc & _). cbn [ctor_pure] in Hc. apply andb_true_iff in Hc as [Hs Hdp].
+  unfold deep_safe in Hdp. apply andb_true_iff in Hdp as [D1 D2].
+  apply negb_true_iff in Hs. unfold HypP. auto.
+Qed.
+
+Lemma D_table es : HypP (ETable es) -> Forall entry_hyp es.
+Proof.
+  intros (_ & Ht & Hs). revert Ht Hs. induction es as [|en es IH]; intros Ht Hs; [constructor|].
+  cbn [tables_safe forallb] in Ht. apply andb_true_iff in Ht as [T1 T2].
+  cbn [has_side_effects existsb] in Hs. apply orb_false_iff in Hs as [S1 S2].
+  constructor; [|apply IH; auto].
+  destruct en as [f v|k v|v]; cbn [entry_hyp]; unfold HypP.
+  - apply andb_true_iff in T1. tauto.
+  - rewrite !andb_true_iff in T1. apply orb_false_iff in S1. tauto.
+  - apply andb_true_iff in T1. tauto.
+Qed.
 
 End Inv.
